@@ -3,4 +3,3 @@ package main
 import "fmt"
 
 func cmdRecord(args []string) int  { fmt.Println("record: not built yet"); return 2 }
-func cmdOptable(args []string) int { fmt.Println("optable: not built yet"); return 2 }
